@@ -366,9 +366,8 @@ class ABTest(Selector):
 
     def select(self, registry: 'asset.Directory', context: typing.Any, stats: 'runtime.Stats') -> 'asset.Instance':
         self._total += 1
-        for slot in self._slots:
-            if slot.eligible(self._total):
-                break
-        else:
+        eligible = [s for s in self._slots if s.eligible(self._total)]
+        if not eligible:
             raise RuntimeError('No eligible slots')
-        return slot.hit(registry)
+        # earliest deadline first: the slot whose next hit is due soonest (falls a full request behind first)
+        return min(eligible, key=lambda s: (s.count + 1) / s.target).hit(registry)
